@@ -356,10 +356,19 @@ func Drive(id, tier string, seed uint64, replayFile string) int {
 	nt := map[uint64]struct{}{}
 	var samples []interface{}
 	conclusive := 0
+	var inconclusiveWhy []string
+	seenWhy := map[string]bool{}
 	sort.Slice(results, func(i, j int) bool { return results[i].CaseID < results[j].CaseID })
 	for _, r := range results {
 		if len(r.Inconclusive) > 0 {
 			inconclusive++
+			for _, why := range r.Inconclusive {
+				w := r.CaseID + ": " + why
+				if len(inconclusiveWhy) < 12 && !seenWhy[w] {
+					seenWhy[w] = true
+					inconclusiveWhy = append(inconclusiveWhy, w)
+				}
+			}
 		} else {
 			conclusive++
 		}
@@ -522,6 +531,12 @@ func Drive(id, tier string, seed uint64, replayFile string) int {
 	cov["samples"] = samples
 	cov["cases_conclusive"] = conclusive
 	cov["cases_inconclusive"] = inconclusive
+	if len(inconclusiveWhy) > 0 {
+		cov["inconclusive_reasons"] = inconclusiveWhy
+		for _, w := range inconclusiveWhy {
+			fmt.Printf("inconclusive: %s\n", w)
+		}
+	}
 	cov["worker_deaths"] = deaths
 	cov["known_findings_reproduced"] = knownHit
 	if len(race) > 0 {
